@@ -1214,3 +1214,209 @@ def fabric_delivery_differential(kwargs, n, seed=0):
     elif model["q0"] != obs["q0"] or model["q1"] != obs["q1"]:
       bad.append({"schedule": k, "why": "model %s, real %s" % (model, obs)})
   return {"schedules": n, "visible_operations": ops, "disagreements": bad}
+
+
+# ---- ao_pubsub scenario (C07 / C09 under every interleaving) ---------------------------------------------------------------------------------
+class RealAoPubsub:
+  def __init__(self, sc, sysm):
+    import queue as _queue
+    from vf import hosts
+    info = sc.info
+    hsm, ao = hosts.install_stubs(capacity=4)
+    import miros.event as ev
+    vis, _, _ = R.visibility_from(sysm)
+    self.d = d = R.Director(vis)
+    self.info = info
+    self.log = []
+    rs, signals = ev.return_status, ev.signals
+    me = self
+
+    def state(chart, e):
+      if e.signal in (signals.ENTRY_SIGNAL, signals.INIT_SIGNAL, signals.EXIT_SIGNAL):
+        return rs.HANDLED
+      if e.signal_name == "NEWS" or e.signal_name.startswith("P"):
+        me.log.append(e.signal_name)
+        return rs.HANDLED
+      chart.temp.fun = chart.top
+      return rs.SUPER
+    self.obj = obj = ao.ActiveObject(name="replay")
+    obj.start_at(state)              # thread stand-in: started, never run by itself
+    ld = obj.locking_deque
+    ld.deque = R.make_deque(d, "D", 4)
+    ld.locking_queue = R.make_queue(d, "Q", 4)
+    self.task = R.make_event(d, "task_event", True)
+    self.run = R.make_event(d, "fabric_event", True)
+    obj.activeobject_task_event = self.task
+
+    def pq(name):
+      class PQ(_queue.PriorityQueue):
+        def put(self, item, block=True, timeout=None):
+          d.before(name, "put")
+          return _queue.PriorityQueue.put(self, item, block, timeout)
+
+        def get(self, block=True, timeout=None):
+          d.before(name, "get")
+          if d.free:
+            return _queue.PriorityQueue.get(self, block, timeout)
+          try:
+            return _queue.PriorityQueue.get(self, False)
+          except _queue.Empty:
+            raise R.Mismatch("queue %s: the schedule grants a get that would block" % name)
+
+        def task_done(self):
+          d.before(name, "task_done")
+          return _queue.PriorityQueue.task_done(self)
+      return PQ()
+
+    class ListProxy(list):
+      def append(self, x):
+        d.before("registries", "append")
+        return list.append(self, x)
+
+      def __iter__(self):
+        i = 0
+        while True:
+          d.before("registries", "iter_next")
+          if i >= list.__len__(self):
+            return
+          yield list.__getitem__(self, i)
+          i += 1
+
+    def registry(name):
+      class KeysView:
+        def __init__(self, dd):
+          self.dd = dd
+
+        def __contains__(self, k):
+          d.before(name, "contains")
+          return dict.__contains__(self.dd, k)
+
+      class Reg(dict):
+        def __contains__(self, k):
+          d.before(name, "contains")
+          return dict.__contains__(self, k)
+
+        def __getitem__(self, k):
+          d.before(name, "getitem")
+          return dict.__getitem__(self, k)
+
+        def __setitem__(self, k, v):
+          if isinstance(v, list) and not isinstance(v, ListProxy):
+            d.before("registries", "new")
+            v = ListProxy(v)
+          d.before(name, "setitem")
+          return dict.__setitem__(self, k, v)
+
+        def keys(self):
+          return KeysView(self)
+      return Reg()
+    self.fab = fab = ao.ActiveFabricSource()
+    fab.fifo_fabric_queue = pq("fifo_queue")
+    fab.lifo_fabric_queue = pq("lifo_queue")
+    fab.fifo_subscriptions = registry("fifo_subscriptions")
+    fab.lifo_subscriptions = registry("lifo_subscriptions")
+    obj.fabric = fab
+    self.news = ev.Event(signal="NEWS")
+    self.sub_ev = ev.Event(signal="NEWS")
+    self.pend = [ev.Event(signal="P%d" % i) for i in range(info["pending"])]
+    self.errors = {}
+    self.bodies = {0: self.caller_body(), 1: self.guard(1, lambda: obj.run_event(self.task, self.run, obj.queue)),
+                   2: self.guard(2, self.delivery)}
+
+  def guard(self, t, fn):
+    def body():
+      try:
+        fn()
+      except R.Mismatch:
+        pass
+      except BaseException as ex:     # noqa
+        self.errors[t] = "%s: %s" % (type(ex).__name__, ex)
+    return body
+
+  def delivery(self):
+    if self.info["kind"] == "fifo":
+      self.fab.thread_runner_fifo(self.run, self.fab.fifo_fabric_queue, self.fab.fifo_subscriptions)
+    else:
+      self.fab.thread_runner_lifo(self.run, self.fab.lifo_fabric_queue, self.fab.lifo_subscriptions)
+
+  def caller_body(self):
+    info = self.info
+
+    def body():
+      try:
+        if info["subscribe_first"]:
+          self.obj.subscribe(self.sub_ev, queue_type=info["kind"])
+        for p in self.pend:
+          self.obj.post_fifo(p)
+        if not info["subscribe_first"]:
+          self.obj.subscribe(self.sub_ev, queue_type=info["kind"])
+        self.obj.publish(self.news, priority=5)
+      except BaseException as ex:     # noqa
+        self.errors[0] = "%s: %s" % (type(ex).__name__, ex)
+    return body
+
+  def observe(self):
+    import collections
+    import queue
+    ld = self.obj.locking_deque
+    return {"dispatch_log": list(self.log), "deque": [e.signal_name for e in collections.deque.__iter__(ld.deque)], "tokens": queue.Queue.qsize(ld.locking_queue),
+            "errors": {str(k): v for k, v in self.errors.items()}, "caller_finished": 0 in self.d.finished}
+
+  def cleanup(self, threads):
+    import miros.activeobject as ao
+    threading.Event.clear(self.run)
+    threading.Event.clear(self.task)
+    self.d.release_all()
+    for q in (self.fab.fifo_fabric_queue, self.fab.lifo_fabric_queue):
+      q.put(ao.FabricEvent(ao.HsmEvent(signal="WAKE_UP"), priority=1))
+    self.obj.locking_deque.locking_queue.put("wake")
+    for t in threads.values():
+      t.join(timeout=0.3)
+
+
+def ao_pubsub_replay(sc, sysm, res, states, infos, loop):
+  real = RealAoPubsub(sc, sysm)
+  threads = {}
+  try:
+    ok, detail, threads = R.run_threads(real.d, real.bodies, triples(infos))
+    time.sleep(0.05)
+    obs = real.observe()
+  finally:
+    real.cleanup(threads)
+  return {"matched": ok, "detail": detail, "real": obs}
+
+
+def ao_pubsub_differential(kwargs, n, seed=0):
+  from vf.e2.check import build
+  rnd = random.Random(seed)
+  bad = []
+  ops = 0
+  for k in range(n):
+    sc, sysm = build("ao_pubsub", kwargs)
+    st = sysm.initial()
+    infos, states = [], [dict(st)]
+    for _ in range(200):
+      en = sysm.enabled_concrete(st)
+      if not en:
+        break
+      st, info = sysm.step_concrete(st, rnd.choice(en))
+      infos.append(info)
+      states.append(dict(st))
+    real = RealAoPubsub(sc, sysm)
+    threads = {}
+    try:
+      ok, detail, threads = R.run_threads(real.d, real.bodies, triples(infos))
+      time.sleep(0.03)
+      obs = real.observe()
+    finally:
+      real.cleanup(threads)
+    ops += len(triples(infos))
+    names = {sc.info["news"]: "NEWS"}
+    for i, rid in enumerate(sc.info["events"][1:]):
+      names[rid] = "P%d" % i
+    want = [names.get(x, "?") for x in model_dispatch_log(infos, states)]
+    if not ok:
+      bad.append({"schedule": k, "why": detail})
+    elif obs["dispatch_log"] != want or obs["tokens"] != st["Q.cnt"]:
+      bad.append({"schedule": k, "why": "model dispatch %s tokens %s; real %s" % (want, st["Q.cnt"], obs)})
+  return {"schedules": n, "visible_operations": ops, "disagreements": bad}
